@@ -166,6 +166,15 @@ def reorder_datatypes(txt: str) -> str:
     """z3's printer may emit a datatype before one it mentions inside Seq/Array: sort topologically."""
     lines = txt.split("\n")
     idx = [i for i, l in enumerate(lines) if l.startswith("(declare-datatypes")]
+    if idx:
+        # uninterpreted sorts must be declared before any datatype that mentions them
+        sorts = [i for i, l in enumerate(lines) if l.startswith("(declare-sort") and i > idx[0]]
+        if sorts:
+            moved = [lines[i] for i in sorts]
+            lines = [l for i, l in enumerate(lines) if i not in set(sorts)]
+            lines[idx[0]:idx[0]] = moved
+            txt = "\n".join(lines)
+            idx = [i for i, l in enumerate(lines) if l.startswith("(declare-datatypes")]
     if len(idx) < 2:
         return txt
     decls = [lines[i] for i in idx]
